@@ -264,12 +264,14 @@ def check(f, obs):
     bad_extra = [r for r in extra if not token_free(r)]
     if missing or bad_extra:
         r = (missing or bad_extra)[0]
-        fails.append(("custom_generator", f.starts[r[0] - 1], "custom_generator %r, tokenizer statements %r" % (cg[:8], stmts[:8])))
+        fails.append(("custom_generator", f.starts[r[0] - 1], "custom_generator %r, tokenizer statements %r" % (cg[:8], stmts[:8]),
+                      {"range": r}))
     else:
         for (a, b) in stmts:
             for n in range(a, b + 1):
                 if obs["logical_in"][n - 1] != (a, b):
-                    fails.append(("logical_line_in", f.starts[n - 1], "logical_line_in(%d) = %r, statement %r" % (n, obs["logical_in"][n - 1], (a, b))))
+                    fails.append(("logical_line_in", f.starts[n - 1], "logical_line_in(%d) = %r, statement %r" % (n, obs["logical_in"][n - 1], (a, b)),
+                                  {"range": (a, b)}))
                     break
             else:
                 continue
@@ -283,7 +285,8 @@ def check(f, obs):
                 continue          # a physical line holding nothing but a backslash: outside the compared domain
             for n in range(a, b + 1):
                 if obs["llf_in"][n - 1] != (a, b):
-                    fails.append(("LogicalLineFinder", f.starts[n - 1], "LogicalLineFinder.logical_line_in(%d) = %r, statement %r" % (n, obs["llf_in"][n - 1], (a, b))))
+                    fails.append(("LogicalLineFinder", f.starts[n - 1], "LogicalLineFinder.logical_line_in(%d) = %r, statement %r" % (n, obs["llf_in"][n - 1], (a, b)),
+                                  {"line": n, "stmt": (a, b), "got": obs["llf_in"][n - 1]}))
                     break
             else:
                 continue
@@ -305,7 +308,8 @@ def check(f, obs):
             if o in q:
                 pr, pa = q[o][2], q[o][3]
                 if pr != (start, b) or pa != text[start:b]:
-                    fails.append(("primary", o, "get_primary_range(%d) = %r (%r); expression %r at %r" % (o, pr, pa, text[start:b][:60], (start, b))))
+                    fails.append(("primary", o, "get_primary_range(%d) = %r (%r); expression %r at %r" % (o, pr, pa, text[start:b][:60], (start, b)),
+                                  {"span": (start, b)}))
                     break
         else:
             continue
